@@ -12,6 +12,7 @@ def run(chk):
     if not chk.prepare():
         return
     simnet.c02(chk)
+    simnet.c02_twins(chk)
     chk.assumptions += ["QUIC stream reliability and ordering under datagram faults are quinn's (model component: FIFO byte pipes); the fault runs exercise them",
                         "the byte-level tie of encoder and decoder is C07's"]
     if not quick:
